@@ -30,6 +30,8 @@ struct World {
     system: Option<(crate::icd::Layouts, Rng)>,
     next_id: u64,
     radials: HashMap<(u64, u64), Vec<(u8, u64)>>,                      // (vol, seq) of the current generation -> [(elevation, tag)]
+    /// hazard scenario PollShort: every volume ends (type letter E) at this sequence instead of 55
+    short_len: Option<u64>,
 }
 
 fn vcp_frame() -> Vec<u8> {
@@ -63,7 +65,8 @@ impl World {
             self.prefix_of.insert(pos.0, t.format("%Y%m%d-%H%M%S").to_string());
         }
         self.count += 1;
-        let name = format!("{}-{:03}-{}", self.prefix_of[&pos.0], pos.1, letter(pos.1));
+        let end = self.short_len.unwrap_or(LASTSEQ);
+        let name = format!("{}-{:03}-{}", self.prefix_of[&pos.0], pos.1, if pos.1 == 1 { "S" } else if pos.1 == end { "E" } else { "I" });
         let bytes = if self.system.is_some() { self.system_chunk(pos) } else { chunk_bytes(pos.0, pos.1, self.count) };
         let lm = self.base + Duration::seconds(self.count as i64 * 4);
         s.objects.insert(format!("{BUCKET}/{SITE}/{}/{}", pos.0, name), Obj { data: bytes.clone(), last_modified: lm, lm_text: None, size_text: None });
@@ -122,12 +125,16 @@ fn decode_chunk(chunk: &Chunk<'_>) -> Result<Vec<(u8, i64)>, String> {
 struct Script { stop_after: Option<u64>, drop_after: Option<u64>, upload_limit: u64, upload_rate: u64, fault_rate: u64, max_faults: u64, burst_max: u64, lockstep: bool }
 
 fn session(rt: &tokio::runtime::Runtime, rng: &mut Rng, start: (u64, u64), full: u64, script: Script, with_stats: bool, system: bool) -> Vec<Value> {
+    session_with(rt, rng, start, full, script, with_stats, system, None)
+}
+
+fn session_with(rt: &tokio::runtime::Runtime, rng: &mut Rng, start: (u64, u64), full: u64, script: Script, with_stats: bool, system: bool, short_len: Option<u64>) -> Vec<Value> {
     let log: Arc<Mutex<Vec<Value>>> = Arc::new(Mutex::new(Vec::new()));
     let seed = rng.next();
     rt.block_on(async {
         let sim = Sim::start().await;
         let base = Utc.with_ymd_and_hms(2024, 3, 1, 0, 0, 0).single().expect("base");
-        let world = Arc::new(Mutex::new(World { up: (0, 0), count: 0, volume_serial: 0, prefix_of: HashMap::new(), uploaded: HashMap::new(), base, system: if system { Some((crate::icd::Layouts::load(), Rng::new(seed ^ 0x5157))) } else { None }, next_id: 1, radials: HashMap::new() }));
+        let world = Arc::new(Mutex::new(World { up: (0, 0), count: 0, volume_serial: 0, prefix_of: HashMap::new(), uploaded: HashMap::new(), base, system: if system { Some((crate::icd::Layouts::load(), Rng::new(seed ^ 0x5157))) } else { None }, next_id: 1, radials: HashMap::new(), short_len }));
         {
             let mut w = world.lock().expect("world");
             let mut s = sim.state.lock().expect("state");
@@ -212,7 +219,7 @@ fn session(rt: &tokio::runtime::Runtime, rng: &mut Rng, start: (u64, u64), full:
                 let mut burst = if script.lockstep { if missing && h.5.below(100) < 80 { 1 } else { 0 } } else if h.5.below(100) < script.upload_rate { 1 + h.5.below(script.burst_max) } else { 0 };
                 while burst > 0 && h.3 < script.upload_limit {
                     let mut w = world.lock().expect("world");
-                    let nx = if w.up == (0, 0) { (1, 1) } else { succ(w.up) };
+                    let nx = if w.up == (0, 0) { (1, 1) } else { match w.short_len { Some(n) if w.up.1 >= n => (if w.up.0 + 1 > MAXVOL { 1 } else { w.up.0 + 1 }, 1), _ => succ(w.up) } };
                     w.upload(s, nx);
                     let rads: Vec<Vec<u64>> = w.radials.get(&nx).map(|r| r.iter().map(|(e, i)| vec![*e as u64, *i]).collect()).unwrap_or_default();
                     log.lock().expect("log").push(json!({"ev": "upload", "vol": nx.0, "seq": nx.1, "rads": rads}));
@@ -274,8 +281,40 @@ fn record_system(args: &Args) {
     res.finish();
 }
 
+/// The two hazards outside the listed properties (PollStale.tla, PollShort.tla) replayed against the real poller.
+/// Purely informational: prints one JSON line per scenario.
+fn record_hazards(args: &Args) {
+    let mut rng = Rng::new(args.seed);
+    let mut tr = TraceOut::create(args.out.as_deref().unwrap_or(""));
+    let mut res = Results::create(args.res.as_deref().unwrap_or(""));
+    // (1) full rotation: the directory ahead of the newest volume holds the chunks written there 999 volumes ago
+    let rt = runtime();
+    progress(|| "hazard scenario: stale directory ahead".to_string());
+    let ev = session(&rt, &mut rng, (500, 55), 998, Script { stop_after: Some(3), drop_after: None, upload_limit: 0, upload_rate: 0, fault_rate: 0, max_faults: 0, burst_max: 1, lockstep: false }, false, false);
+    let deliveries: Vec<(u64, u64)> = ev.iter().filter(|e| e["ev"] == json!("deliver")).map(|e| (e["vol"].as_u64().unwrap_or(0), e["seq"].as_u64().unwrap_or(0))).collect();
+    let stale = deliveries.iter().filter(|d| d.0 != 500).count();
+    res.case(1, true);
+    tr.ev(json!({"hazard": "stale_directory_ahead", "spec": "PollStale.tla", "reproduced_on_real_code": stale > 0, "deliveries": deliveries, "note": "chunks of volumes 501.. are the previous rotation's (oldest upload times in the bucket); nothing was uploaded during the session"}));
+    // (2) volumes that end (type letter E) at chunk 40
+    let rt = runtime();
+    progress(|| "hazard scenario: short volume".to_string());
+    let ev = session_with(&rt, &mut rng, (10, 38), 1, Script { stop_after: None, drop_after: None, upload_limit: 60, upload_rate: 100, fault_rate: 0, max_faults: 0, burst_max: 1, lockstep: false }, false, false, Some(40));
+    let deliveries: Vec<(u64, u64)> = ev.iter().filter(|e| e["ev"] == json!("deliver")).map(|e| (e["vol"].as_u64().unwrap_or(0), e["seq"].as_u64().unwrap_or(0))).collect();
+    let last_deliver = ev.iter().rposition(|e| e["ev"] == json!("deliver")).unwrap_or(0);
+    let uploads_after = ev.iter().skip(last_deliver).filter(|e| e["ev"] == json!("upload")).count();
+    let ret = ev.last().cloned().unwrap_or(json!(null));
+    res.case(2, true);
+    if std::env::var("VERIF_DEBUG").is_ok() { for e in ev.iter().filter(|e| e["ev"] != json!("probe")) { eprintln!("{e}"); } }
+    tr.ev(json!({"hazard": "volume_shorter_than_55_chunks", "spec": "PollShort.tla", "reproduced_on_real_code": ret["ok"] == json!(false) && uploads_after > 0 && deliveries.last().map(|d| d.0 == 10 && d.1 < 41).unwrap_or(false),
+                 "deliveries": deliveries, "uploads_while_waiting": uploads_after, "returned": ret}));
+    res.sample(json!({"scenarios": ["stale_directory_ahead", "volume_shorter_than_55_chunks"]}));
+    tr.finish();
+    res.finish();
+}
+
 pub fn run(args: &Args) {
     if args.mode == "replay" { return replay(args); }
+    if args.mode == "record-hazards" { return record_hazards(args); }
     if args.mode == "record-system" { return record_system(args); }
     if args.mode != "record" { eprintln!("poll: unknown mode"); std::process::exit(2); }
     let mut rng = Rng::new(args.seed);
@@ -356,7 +395,7 @@ fn scripted_session(rt: &tokio::runtime::Runtime, start: (u64, u64), full: u64, 
     rt.block_on(async {
         let sim = Sim::start().await;
         let base = Utc.with_ymd_and_hms(2024, 3, 1, 0, 0, 0).single().expect("base");
-        let world = Arc::new(Mutex::new(World { up: (0, 0), count: 0, volume_serial: 0, prefix_of: HashMap::new(), uploaded: HashMap::new(), base, system: None, next_id: 1, radials: HashMap::new() }));
+        let world = Arc::new(Mutex::new(World { up: (0, 0), count: 0, volume_serial: 0, prefix_of: HashMap::new(), uploaded: HashMap::new(), base, system: None, next_id: 1, radials: HashMap::new(), short_len: None }));
         {
             let mut w = world.lock().expect("world");
             let mut s = sim.state.lock().expect("state");
